@@ -264,7 +264,7 @@ pub(crate) mod verif_dec {
             assert!(!r.faulted || r.fault_kind == 0, "[C10] success is never reported when a read failed (other than a retried interruption)");
             assert!(!w.faulted, "[C10] success is never reported when a write or flush failed");
         }
-        if !nat && !w.faulted {
+        if !nat && !w.faulted && !r.faulted {
             if let Err(e) = &res {
                 if !matches!(e, DecryptError::UnexpectedData) {
                     assert!(w.released == opened, "[C13,C04] when a later chunk fails, every chunk authenticated before it has already been written: the output holds exactly the authenticated prefix");
